@@ -111,7 +111,7 @@ def run(ctx):
                        "any/interface{}, named types, aliases of a named / pointer / slice type, pointers of depth 1-3, slices, arrays, maps, channels of all directions, func, struct and interface "
                        "literals, variadics), a package whose name differs from its directory, and a user package of four files that bind the library as itself, under an alias, not at all; per "
                        "annotated type every interface method is implemented exactly / identically but spelled differently / almost / not at all, with value or pointer receiver, directly or "
-                       "promoted through an embedded struct or *struct; contracts with and without &; qualifiers bound, unbound, the package's own name, the directory name of a differently named "
+                       "promoted through an embedded struct or *struct; interfaces with an unexported method (satisfied only by a mixin type of the interface's package embedded by value or pointer - value or pointer receiver - never by a method of the same name declared in the annotated type's package; both at once); a same-package interface over a defined type of a package that also has an in-package _test.go file (analysed twice by the stand-alone driver); contracts with and without &; qualifiers bound, unbound, the package's own name, the directory name of a differently named "
                        "package; targets that are interfaces, the empty interface, a struct, a function, absent. evaluations = annotations judged by Go; non-trivial = annotations with a decidable "
                        "verdict other than the trivially satisfied empty interface. Compared: binary vs Go's verdict incl. missing-method names; binary vs model incl. column and message" % n)
     rep.cov["go_verdicts"] = dict(exp)
@@ -119,7 +119,7 @@ def run(ctx):
     rep.cov["impl_diagnostics"] = nimpl
     rep.cov["input_distribution"] = stats
     rep.cov["samples"] = [{"file": v["File"], "line": v["Line"], "annotation": v["Text"].strip(), "go_says": v["Expect"], "missing": v.get("Missing")} for v in oracle[:4]]
-    rep.assumptions = ["fragment: non-generic types and interfaces; no unexported interface methods across packages; no @implements on an alias declaration (DESIGN 5.1)",
+    rep.assumptions = ["fragment: non-generic types and interfaces; no @implements on an alias declaration (DESIGN 5.1)",
                        "the method sets (types.NewMethodSet) and interface completion are inputs of the model; types.Identical is a library model (equality of normal forms) exercised on every pair"]
     return rep.finish()
 
